@@ -21,21 +21,21 @@ import (
 // Unsubscribe.
 
 type psMsg struct {
-	id        int64
-	phase     string // settled | inflight | post
-	item      *simsvc.Item
-	hdr       map[string]string
-	cid       string
-	published bool
-	pubErr    error
-	got       int
-	gotItem   *simsvc.Item
-	gotHdr    map[string]string
-	gotCid    string
-	gotOpid   string
-	pubOpid   string
-	startStep int
-	order     int
+	id           int64
+	phase        string // settled | inflight | post
+	item         *simsvc.Item
+	hdr          map[string]string
+	cid          string
+	published    bool
+	pubErr       error
+	got          int
+	gotItem      *simsvc.Item
+	gotHdr       map[string]string
+	gotCid       string
+	gotOpid      string
+	pubOpid      string
+	startStep    int
+	order        int
 	mwPub, mwSub []string
 }
 
